@@ -389,9 +389,14 @@ def forward(cfg, init, transfer, refine=None, start=None):
 def truth_of(expr, env):
     """-> (truth, elts)"""
     if isinstance(expr, ast.Constant):
-        return (bool(expr.value), None)
+        return (False, 'NONE') if expr.value is None else (bool(expr.value), None)
     if isinstance(expr, ast.Name):
         return env.get(expr.id, (None, None))
+    if isinstance(expr, ast.Attribute):
+        k = path_key(expr)
+        if k is not None and k in env:
+            return env[k]
+        return env.get('*.' + expr.attr, (None, None))
     if isinstance(expr, (ast.Tuple, ast.List)):
         elts = tuple(truth_of(e, env) for e in expr.elts)
         return (bool(elts), elts)
@@ -450,17 +455,49 @@ def truth_of(expr, env):
         # x != '' / x == '' / x is None / x is not None
         for a, b in ((l, r), (r, l)):
             if isinstance(b, ast.Constant) and (b.value == '' or b.value is None):
-                t = truth_of(a, env)[0]
+                t, mark = truth_of(a, env)
                 if t is None:
                     return (None, None)
+                is_none = (mark == 'NONE')
+                if b.value is None:
+                    known = True if (t is False and is_none) else (False if t is True else None)
+                else:
+                    known = None if is_none else (not t)
+                    if t is False and not is_none:
+                        known = None        # falsy but not necessarily the empty string
+                    if t is True:
+                        known = False
+                if known is None:
+                    return (None, None)
                 if isinstance(op, (ast.NotEq, ast.IsNot)):
-                    return (True, None) if t else (None, None) if b.value is None else (False, None)
+                    return (not known, None)
                 if isinstance(op, (ast.Eq, ast.Is)):
-                    return (False, None) if t else (None, None) if b.value is None else (True, None)
+                    return (known, None)
     return (None, None)
 
 
+def path_key(e):
+    """'a.b().c' for an access path of names, attributes and argument-less calls; None otherwise"""
+    if isinstance(e, ast.Name):
+        return e.id
+    if isinstance(e, ast.Attribute):
+        b = path_key(e.value)
+        return None if b is None else b + '.' + e.attr
+    if isinstance(e, ast.Call) and not e.args and not e.keywords:
+        b = path_key(e.func)
+        return None if b is None else b + '()'
+    return None
+
+
 def _bind(target, val, env):
+    if isinstance(target, ast.Attribute):
+        k = path_key(target)
+        if k is not None:
+            if val[0] is None and val[1] is None:
+                env.pop(k, None)
+            else:
+                env[k] = val
+        return
     if isinstance(target, ast.Name):
         if val[0] is None and val[1] is None:
             env.pop(target.id, None)
@@ -576,6 +613,18 @@ def _refine(test, label, env):
     while isinstance(t, ast.UnaryOp) and isinstance(t.op, ast.Not):
         t = t.operand
         want = not want
+    if isinstance(t, ast.BoolOp):
+        # `A and B` false with all but one conjunct known true  =>  that conjunct is false (dually for `or`)
+        neutral = isinstance(t.op, ast.And)
+        if want is not neutral:
+            unknown = [v for v in t.values if truth_of(v, env)[0] is None]
+            others = [v for v in t.values if truth_of(v, env)[0] is not None]
+            if len(unknown) == 1 and all(truth_of(v, env)[0] is neutral for v in others):
+                return _refine(unknown[0], want, env)
+        else:
+            for v in t.values:
+                env = _refine(v, want, env)
+        return env
     if isinstance(t, ast.Name):
         old = env.get(t.id, (None, None))
         if old[0] is None:
@@ -615,7 +664,7 @@ def trace(seen, key, g, maxlen=40):
 
 def resolve_expr(expr, subst, depth=6):
     """copy of `expr` with once-assigned local names replaced by their defining expressions (recursively)"""
-    import copy as _copy
+    from .loader import clone
 
     class R(ast.NodeTransformer):
         def __init__(self, d):
@@ -623,7 +672,7 @@ def resolve_expr(expr, subst, depth=6):
 
         def visit_Name(self, node):
             if isinstance(node.ctx, ast.Load) and node.id in subst and self.d > 0:
-                new = _copy.deepcopy(subst[node.id])
+                new = clone(subst[node.id])
                 return R(self.d - 1).visit(new)
             return node
-    return R(depth).visit(_copy.deepcopy(expr))
+    return R(depth).visit(clone(expr))
